@@ -70,9 +70,10 @@ def backends_table():
     from odata_query.roundtrip import AstToODataVisitor
     from odata_query.sql import AstToAthenaSqlVisitor, AstToSqliteSqlVisitor, AstToSqlVisitor
     sa = backends.ThingSa()
-    return [("sql", True, lambda t: AstToSqlVisitor().visit(project.parse(t))),
-            ("sqlite", True, lambda t: AstToSqliteSqlVisitor().visit(project.parse(t))),
-            ("athena", True, lambda t: AstToAthenaSqlVisitor("al").visit(project.parse(t))),
+    v1, v2, v3 = AstToSqlVisitor(), AstToSqliteSqlVisitor(), AstToAthenaSqlVisitor("al")     # reused for the whole run
+    return [("sql", True, lambda t: v1.visit(project.parse(t))),
+            ("sqlite", True, lambda t: v2.visit(project.parse(t))),
+            ("athena", True, lambda t: v3.visit(project.parse(t))),
             ("django", False, backends.django_thing),
             ("sa-orm", False, sa.orm),
             ("sa-core", False, sa.core)], sa
